@@ -8,7 +8,8 @@ Decided (DESIGN.md section 5, C15):
                                       exactly once (bit = id[0,3), offset = id[3,3+b), chunk = id[3+b,W)); one storage byte holds 2^3 bits;
                                       every chunk allocation / memset / memcpy uses 2^b bytes
      A2-idset-end-sentinel            last() is (number of chunks) << (3+b), the first id behind the last chunk, and that value is
-                                      representable in the id type for every reachable chunk count   [FINDING on the pristine tree]
+                                      representable in its return type for every reachable chunk count; the iterator's chunk jump is computed
+                                      and stored wide enough for the last chunk   [found F16, fixed by a123208]
      A3-idset-iterator-skips          IdSetDenseIterator::next: missing chunk -> (chunk+1) << (3+b); zero byte -> += 2^3 then & ~(2^3-1);
                                       otherwise ++; each under its test; operator++ advances before searching
      A4-idset-chunk-access-guarded    every m_data[c] in IdSetDense is dominated by c < m_data.size() (or resize(c+1)); every byte access
@@ -51,6 +52,7 @@ from ..charset import Unsupported, field_vec, int_type
 from ..flow import path_search, describe_path
 
 # genuine findings on the pristine tree: (rule, key, explanation)
+# (fixed in /repo by a123208 "IdSetDense iterator uses 64 bit positions"; kept as documentation of what the rule found)
 KNOWN = [
     ('A2-idset-end-sentinel', 'osmium::index::IdSetDense::last#sentinel-representable-in-id-type',
      'IdSetDense<uint32_t> (default chunk_bits 22): last() computes m_data.size() * chunk_size * 8 in size_t and returns it as T. '
@@ -515,24 +517,62 @@ def _idset_iter(fb, R, rec, its, T):
         add = [n for n in asg if n.get('op') == '+=']
         msk = [n for n in asg if n.get('op') == '&=']
         # (a) missing chunk
+        wr = [m_['id'] for m_ in asg] + [m_['id'] for m_ in incs]
+
+        def follow(nid, use):
+            """strip casts and names of locals that are initialised in the same iteration with no write to the position between their
+            declaration and `use` (they name the value the position had / a value derived from it at that moment)."""
+            x_ = U.strip_casts(fn, nid)
+            hops = 0
+            while hops < 4:
+                hops += 1
+                n_ = fn.nodes.get(x_)
+                if n_ is None or n_.get('k') != 'var' or n_.get('vk') != 'local' or n_['d'] in U.assigned_vars(fn):
+                    break
+                i_ = U.local_init(fn, n_['d'])
+                decl = next((m_ for m_ in fn.all_nodes() if m_.get('k') == 'decl' and any(v_['d'] == n_['d'] for v_ in m_['vars'])), None)
+                if i_ is None or decl is None:
+                    break
+                # a write to the position between the declaration and the use (on a path that does not re-execute the declaration)?
+                dirty = any(w_ != use and path_search(fn, decl['id'], lambda e: e == w_, lambda e: e == use) is not None
+                            and path_search(fn, w_, lambda e: e == use, lambda e: e == decl['id']) is not None for w_ in wr)
+                if dirty:
+                    break
+                x_ = U.strip_casts(fn, i_)
+            return x_
         ok = len(jump) == 1
         if ok:
-            x = U.scn(fn, jump[0]['rhs'])
+            J = jump[0]['id']
+            x = fn.nodes.get(follow(jump[0]['rhs'], J))
             ok = x is not None and x.get('k') == 'binop' and x.get('op') == '<<' and fn.const_value(x['rhs']) == shift
             if ok:
-                y = U.scn(fn, x['lhs'])
+                y = fn.nodes.get(follow(x['lhs'], J))
                 ok = y is not None and y.get('k') == 'binop' and y.get('op') == '+' and fn.const_value(y['rhs']) == 1
                 if ok:
-                    v = U.scn(fn, y['lhs'])
-                    init = U.local_init(fn, v['d']) if v is not None and v.get('k') == 'var' else None
-                    c = U.scn(fn, init) if init is not None else None
-                    ok = c is not None and c.get('k') == 'call' and c.get('u') == T['chunk'].usr and c.get('args') and fn.is_this_member(c['args'][0], pos_f)
+                    c = fn.nodes.get(follow(y['lhs'], J))
+                    ok = c is not None and c.get('k') == 'call' and c.get('u') == T['chunk'].usr and c.get('args') \
+                        and fn.is_this_member(follow(c['args'][0], J), pos_f)
                     # under the null-chunk test
                     g = [(cc, s) for (cc, s, b, o) in U.guards(fn, jump[0]['id'])
                          if any(fn.nodes[z].get('q') == 'std::unique_ptr::(conv)' for z in fn.subtree(cc))]
                     ok = ok and any(not s for (cc, s) in g)
         R.check(ok, rule, fn.q + '#missing-chunk-jumps-to-next-chunk', fn.site if not jump else fn.loc(jump[0]['id']),
                 '%s: for a missing chunk the position must become (chunk_id(pos) + 1) << %d' % (fn.q, shift))
+        if ok:
+            # the jump out of the last chunk is 2^W: the shift must be computed in, and stored into, a type that holds it
+            W = T['W']
+            xt = int_type(x.get('t'))
+            yt = int_type(y.get('t'))
+            if xt is not None and yt is not None and yt[1] < xt[1]:
+                xt = yt     # `cid + 1` already computed in a narrower type
+            pt = int_type((fn.sn(jump[0]['lhs']) or {}).get('t'))
+            slots = 1 << (W - shift)
+            reachable = slots * 8 <= (1 << 32)
+            wide = xt is not None and pt is not None and min(xt[1] - (1 if xt[0] else 0), pt[1] - (1 if pt[0] else 0)) > W
+            R.check(wide or not reachable, 'A2-idset-end-sentinel', fn.q + '#jump-behind-last-chunk-representable', fn.loc(jump[0]['id']),
+                    '%s computes (chunk + 1) << %d in %s and stores it in %s: for the last chunk of %d-bit ids the result 2^%d wraps to 0 '
+                    '(the iterator would restart / never reach end())' % (fn.q, shift, x.get('t'), (fn.sn(jump[0]['lhs']) or {}).get('t'), W, W),
+                    'W=%d computed in %s' % (W, x.get('t')))
         # (b) zero byte
         ok = len(add) == 1 and len(msk) == 1
         if ok:
@@ -560,6 +600,23 @@ def _idset_iter(fb, R, rec, its, T):
         inloop = any(fn.in_range(incs[0]['id'], l['b'], l['e']) for l in fn.loops)
         ok = hasget and hasend and inloop
         R.check(ok, rule, fn.q + '#searches-while-unset-and-before-end', fn.site, '%s must loop while the position is not the end and its bit is not set' % fn.q)
+    # positions (members, constructor parameters) must hold the end sentinel 2^W of the last chunk
+    W = T['W']
+    reachable = (1 << (W - shift)) * 8 <= (1 << 32)
+
+    def holds(t):
+        it_ = int_type(t)
+        return it_ is not None and it_[1] - (1 if it_[0] else 0) > W
+    if irec is not None:
+        ints = [f for f in irec.fields if int_type(f['tC']) is not None]
+        R.check(len(ints) >= 2 and (all(holds(f['tC']) for f in ints) or not reachable), 'A2-idset-end-sentinel', ISI + '#position-members-hold-end-sentinel',
+                '%s:%d' % (irec.file, irec.line),
+                'the iterator keeps its position / end in %s: the end sentinel 2^%d of a %d-bit id set that uses its last chunk does not fit (wraps to 0)'
+                % ([f['tC'] for f in ints], W, W), str([(f['name'], f['tC']) for f in ints]))
+    for fn in [f for f in its if f.kind == 'ctor' and len(f.params) == 3]:
+        ps = [p_ for p_ in fn.params if int_type(p_['tC']) is not None]
+        R.check(len(ps) == 2 and (all(holds(p_['tC']) for p_ in ps) or not reachable), 'A2-idset-end-sentinel', fn.q + '#position-parameters-hold-end-sentinel', fn.site,
+                'the iterator constructor receives position / end as %s: last() == 2^%d is truncated on the way in' % ([p_['tC'] for p_ in ps], W))
     for fn in [f for f in its if f.kind == 'operator' and f.name.startswith('operator++') and not f.params]:
         incs = [n for n in fn.all_nodes() if n.get('k') == 'unop' and n.get('op') == '++' and fn.is_this_member(n['sub'])]
         calls = [n for n in fn.all_nodes() if n.get('k') == 'call' and n.get('q') == ISI + '::next']
@@ -1361,7 +1418,7 @@ def run(ctx):
     R.note('not decided: m_data[cid] in IdSetDenseIterator::next is bounded by the iterator invariant m_value < m_last, not by a dominating test')
     # instance floors = distinct (rule, key) pairs confirmed by reading the tree
     R.expect('A1-idset-bit-tiling', 7)              # partition + new[] x2 (+ element width) + memset + memcpy
-    R.expect('A2-idset-end-sentinel', 2)
+    R.expect('A2-idset-end-sentinel', 5)            # last(): formula + representable; iterator: jump, members, constructor parameters wide enough
     R.expect('A3-idset-iterator-skips', 4)
     R.expect('A4-idset-chunk-access-guarded', 6)    # get / get_element: chunk index, byte index pairing, non-null
     R.expect('A5-idset-size-tracks-bit-flips', 4)
